@@ -19,6 +19,8 @@ OBLIGATIONS = [
     (P + "mpMatch_eq_spec", "mount_point::match (both overloads) = Spec.mpMatch: all configured patterns match their whole strings; result = selected string or its group"),
     (P + "pool_is_first_match", "applications_pool scan = first mount point in mount order that matches; none => 404"),
     (P + "poolRoute_eq_spec", "pool + application::main = Spec.poolRoute"),
+    (P + "pool_scan_order", "both lists of applications_pool: first accepting mount in Spec.scanOrder = pools/factories in mount order, then classic asynchronous (intrusive_ptr) applications in mount order, dead ones left out"),
+    (P + "poolRouteAll_eq_spec", "the same after any number of 'the application that got the request dies' rounds, followed by application::main"),
     (P + "parseTpl_literal", "a template without braces parses to itself, arity 0"),
     (P + "parseTpl_param", "lit{n}rest parses to parts [lit, …] index n"),
     (P + "parseTpl_errors", "{} => emptyIndex, {0} => zeroIndex, unclosed/stray braces => errors, for all surrounding text without braces"),
@@ -314,18 +316,31 @@ def gen_MP(rng, n, out):
 
 
 def gen_P(rng, n, out):
+    """pools: S = mount(create_pool<app>(..),mp,flags) (list `apps`), A = mount(intrusive_ptr<application>,mp) (classic asynchronous
+    application, list `legacy_async_apps`, scanned after ALL of `apps`); overlapping mount points (the same mount point twice, a
+    specific one before/after a catch-all), and rounds in which the application that got the request dies first"""
     for _ in range(n):
-        k = rng.randrange(1, 5)
+        k = rng.randrange(1, 6)
         secs, samples = [], []
         ids = Counter()
-        for _ in range(k):
-            w, sample = gen_mp(rng)
-            tw, ts = gen_tree(rng, rng.choice((1, 2, 3)), ids, nmax=4)
-            secs.append(" ".join(w + tw))
+        prev = None
+        for j in range(k):
+            r = rng.random()
+            if prev is not None and r < 0.3:
+                w, sample = prev                      # the very same mount point again
+            elif r < 0.5:
+                w, sample = ["_", "_", "_", "0", "1"], (lambda rng: ("h", "/s", rng.choice(["/p", "/x/y", ""])))   # catch-all mount_point()
+            else:
+                w, sample = gen_mp(rng)
+            prev = (w, sample)
+            tw, ts = gen_tree(rng, rng.choice((1, 1, 2)), ids, nmax=3)
+            kind = "A" if rng.random() < 0.6 else "S"
+            secs.append(" ".join([kind] + w + tw))
             samples.append(sample)
         for _ in range(3):
             h, s, p = perturb3(rng, rng.choice(samples)(rng))
-            out.append("P %s %s %s %s %d | %s |" % (hx(rng.choice(METHODS[:4])), hx(h), hx(s), hx(p), k, " | ".join(secs)))
+            rounds = rng.choice((0, 0, 0, 1, 1, 2, 3))
+            out.append("P %s %s %s %s %d %d | %s |" % (hx(rng.choice(METHODS[:4])), hx(h), hx(s), hx(p), k, rounds, " | ".join(secs)))
 
 
 # ------------------------------------------------------------------ url_mapper
@@ -491,6 +506,11 @@ def gen_site(rng, depth, ids, keyn, chain=()):
         else:
             # a sibling whose language may overlap the others (first-match matters)
             items += ["L", str(ids.next()), retok(rng.choice([r"/k\d+", r"/c\d+/x", r"/(.*)/zz", r"/k1/(.*)"])), "_", "rh"]
+    if rng.random() < 0.35:
+        # assemble-after-first-map: this application generates a URL during its construction, i.e. before its parent mounts it
+        # (position: anywhere among its own registrations); everything mapped later must be unaffected
+        cut = rng.choice([0, len(items)])
+        items = items[:cut] + ["W"] + items[cut:]
     return ["{"] + items + ["}"], entries
 
 
@@ -581,7 +601,9 @@ def names_on_path(tw, pos):
         depth = 0
         while True:
             w = tw[i]
-            if w == "L":
+            if w == "W":
+                i += 1
+            elif w == "L":
                 i += 5
             elif w == "U":
                 i += 3
